@@ -176,4 +176,30 @@ theorem tryNext_or_advances (N : List Name) (hN : N.Pairwise (· < ·)) (f : Nat
               · exact Or.inl rfl
               · exact Or.inr rfl
 
+/-- **the digit restarts at its first value.**  Re-acceptance (`tryFwd` → `OrList::acceptChoice`) of an exhausted OrList
+(`choice = LISTEND`) scans from `choice1`: with an alternative `p ≥ choice1` that counts and is free it accepts, and the
+new `choice` lies in `[choice1, p]`. -/
+theorem reaccept_restarts (N : List Name) (hN : N.Pairwise (· < ·)) (f : Nat) (v : MT) (c1 : Int) (k : Nat)
+    (cs : List ST) (es : Ents) (r : ST × Ents × Bool) (o : Name → Nat) (p : Nat) (chp : ST)
+    (h : acceptChoice f (.mult .or v listEnd c1 k cs) es = .ok r) (hnm : names es = N)
+    (hfr : FrL o cs es) (h0 : holdsL cs = []) (htidy : TidyL cs)
+    (hc1 : 0 ≤ c1) (hcp : c1 ≤ (p : Int)) (hp : cs[p]? = some chp) (hpa : PA N chp) (hnd : (lvS chp).Nodup)
+    (hout : ∀ n ∈ lvS chp, o n = 0) :
+    r.2.2 = true ∧ ∃ (j : Nat) (cs' : List ST), r.1 = .mult .or v (j : Int) c1 k cs' ∧ c1 ≤ (j : Int) ∧ j ≤ p := by
+  have hplt : p < cs.length := (List.getElem?_eq_some_iff.mp hp).1
+  cases f with
+  | zero => simp [acceptChoice] at h
+  | succ f =>
+    simp only [acceptChoice, if_true] at h
+    obtain ⟨i, hi⟩ : ∃ i : Nat, c1 = (i : Int) := ⟨c1.toNat, by omega⟩
+    have hir : inRange c1 cs.length = some i := by rw [hi]; exact inRange_cast (by omega)
+    simp only [hir] at h
+    obtain ⟨⟨cs', es', ro⟩, h1, h2⟩ := bind_ok' h
+    obtain ⟨j, hj1, hj2, hj3⟩ := acceptOr_progress' N hN f cs i es _ o p chp h1 hnm hfr h0 hnd hout htidy (by omega) hp hpa
+    simp only at hj1 h2
+    subst hj1
+    simp only at h2
+    cases h2
+    exact ⟨rfl, j, cs', rfl, by omega, hj3⟩
+
 end StepModel.Complex.Match
